@@ -1620,8 +1620,10 @@ forward_query(int bind_fd, struct query *q)
 
 	newaddr = inet_addr("127.0.0.1");
 	myaddr = (struct sockaddr_in *) &(q->from);
+	myaddr->sin_family = AF_INET;
 	memcpy(&(myaddr->sin_addr), &newaddr, sizeof(in_addr_t));
 	myaddr->sin_port = htons(bind_port);
+	q->fromlen = sizeof(struct sockaddr_in);
 
 	if (debug >= 2) {
 		fprintf(stderr, "TX: NS reply \n");
